@@ -245,9 +245,11 @@ func (p *Profile) genOpKind(t *rapid.T, kind string, gs *genState, depth int) Op
 		o.WV = rapid.Bool().Draw(t, "wv")
 		o.Flag = uni(t, 4, "mangler")
 		o.N = rapid.IntRange(0, 1000).Draw(t, "mseed")
+		p.genBlockSubs(t, &o, gs, depth)
 	case OpRandom:
 		coll()
 		handle()
+		p.genBlockSubs(t, &o, gs, depth)
 	case OpEvict:
 		coll()
 		o.N = rapid.IntRange(1, 12).Draw(t, "n")
@@ -313,6 +315,24 @@ func (p *Profile) genOpKind(t *rapid.T, kind string, gs *genState, depth int) Op
 	}
 	return o
 }
+
+// genBlockSubs lets the visitor of a whole-collection enumeration call back
+// into the store (reads and further enumerations; C16/C18).
+func (p *Profile) genBlockSubs(t *rapid.T, o *Op, gs *genState, depth int) {
+	if !p.Nested || depth != 0 || uni(t, 10, "blocknest") >= 3 {
+		return
+	}
+	o.At = rapid.IntRange(0, 4).Draw(t, "at")
+	n := rapid.IntRange(1, 2).Draw(t, "nsub")
+	for i := 0; i < n; i++ {
+		k := blockNestedKinds[uni(t, len(blockNestedKinds), "subkind")]
+		sub := p.genOpKind(t, k, gs, depth+1)
+		sub.C, sub.S = o.C, o.S // the same collection through the same handle
+		o.Sub = append(o.Sub, sub)
+	}
+}
+
+var blockNestedKinds = []string{OpRandom, OpBlock, OpLen, OpGetItem, OpVisit, OpRandom}
 
 var nestedKinds = []string{OpGet, OpGetItem, OpMin, OpTotals, OpVisit, OpSet, OpDel, OpEvict, OpSnap, OpSnapClose, OpFlush, OpSetColl, OpRmColl, OpChurn}
 
